@@ -765,7 +765,8 @@ class ResultMessage(_MessageType):
         def decode_val(val, col_md, col_desc):
             uses_ce = column_encryption_policy and column_encryption_policy.contains_column(col_desc)
             col_type = column_encryption_policy.column_type(col_desc) if uses_ce else col_md[3]
-            raw_bytes = column_encryption_policy.decrypt(col_desc, val) if uses_ce else val
+            # a null cell has nothing to decrypt
+            raw_bytes = column_encryption_policy.decrypt(col_desc, val) if uses_ce and val is not None else val
             return col_type.from_binary(raw_bytes, protocol_version)
 
         def decode_row(row):
